@@ -228,7 +228,8 @@ pub fn build_writer(world: &World, o: &Opts) -> MinidumpWriter {
         });
     }
     if let Some(ms) = o.stop_timeout_ms {
-        w.stop_timeout(std::time::Duration::from_millis(ms));
+        // u64::MAX stands for Duration::MAX ("no limit")
+        w.stop_timeout(if ms == u64::MAX { std::time::Duration::MAX } else { std::time::Duration::from_millis(ms) });
     }
     w
 }
